@@ -30,7 +30,13 @@ struct Machine {
     void host(const Step& s) {
         auto& t = *box.t;
         s64 k = s.arg(0);
-        switch (k % 7) {
+        switch (k % 9) {
+        case 7: // routing changed while the system runs
+            t.MMIOWrite((u16)(0x206 + 2 * (s.arg(1) % 4)), (u16)s.arg(2));
+            break;
+        case 8: // timer event write from the host side
+            t.MMIOWrite((u16)(0x22 + 0x10 * (s.arg(1) & 1)), 1);
+            break;
         case 0:
             t.SendData((u8)(s.arg(1) % 3), (u16)s.arg(2));
             break;
@@ -105,7 +111,7 @@ public:
         if (r.chance(1, 12))
             mod3 &= ~0x80; // interrupts globally off: pure skipping
         p.set_knob("mod3", mod3);
-        const u16 irqs[5] = {1 << 9, 1 << 10, 1 << 11, 1 << 12, 1 << 14};
+        const u16 irqs[6] = {1 << 9, 1 << 10, 1 << 11, 1 << 12, 1 << 14, 1 << 15};
         u16 en[3] = {0, 0, 0}, env = 0;
         for (u16 bit : irqs) {
             int where = (int)r.below(6); // 0..2 line, 3 vectored, 4 two places, 5 nowhere
@@ -144,7 +150,7 @@ public:
         p.set_knob("bt1_en", bt1);
         p.set_knob("bt1_words", bt1 ? (s64)r.below(19) : 0);
         p.set_knob("busy", (s64)r.below(7));
-        p.set_knob("main", (s64)(r.chance(1, 8) ? 1 : r.chance(1, 5) ? 2 : 0));
+        p.set_knob("main", (s64)(r.chance(1, 8) ? 1 : r.chance(1, 5) ? 2 : r.chance(1, 6) ? 3 : r.chance(1, 12) ? 4 : 0));
         for (int h = 0; h < 4; ++h) {
             u16 act = 0;
             if (r.chance(1, 3))
@@ -161,6 +167,12 @@ public:
                 act |= HA_TRIGGER;
             if (r.chance(1, 16))
                 act |= HA_IDLE_INSIDE;
+            if (r.chance(1, 8))
+                act |= HA_EINT;
+            if (r.chance(1, 6))
+                act |= HA_EVENT;
+            if (r.chance(1, 8))
+                act |= HA_DMA;
             p.set_knob("h" + std::to_string(h) + "act", act);
             p.set_knob("h" + std::to_string(h) + "par", (s64)r.below(0x300));
         }
@@ -174,7 +186,7 @@ public:
         for (int i = 0; i < n_host; ++i) {
             Step s;
             s.op = "host";
-            s.a = {(s64)r.below(7), (s64)r.below(32), (s64)(r.chance(1, 2) ? (r.next() & 0xFFFF) : (1u << (9 + r.below(6))))};
+            s.a = {(s64)r.below(9), (s64)r.below(32), (s64)(r.chance(1, 2) ? (r.next() & 0xFFFF) : (1u << (9 + r.below(6))))};
             if (s.a[0] == 4)
                 s.a[2] = (s64)(r.chance(3, 4) ? r.pick(kStarts) : (u32)r.range(0, 300));
             host.emplace_back(r.below(budget), s);
@@ -283,7 +295,7 @@ public:
             const Step& s = plan.steps[si];
             if (s.op == "host") {
                 out.faults_configured["host-event"]++;
-                if (s.arg(0) % 7 == 2)
+                if (s.arg(0) % 9 == 2)
                     out.faults_configured["irq-inject"]++;
                 std::size_t ea = A.box.events.size();
                 try {
@@ -296,7 +308,7 @@ public:
                 }
                 if (A.box.events.size() != ea || cycle > 0)
                     out.faults_fired["host-event"]++;
-                if (s.arg(0) % 7 == 2 && (s.arg(2) & (A.cfg.en[0] | A.cfg.en[1] | A.cfg.en[2] | A.cfg.env)))
+                if (s.arg(0) % 9 == 2 && (s.arg(2) & (A.cfg.en[0] | A.cfg.en[1] | A.cfg.en[2] | A.cfg.env)))
                     out.faults_fired["irq-inject"]++;
                 continue;
             }
@@ -396,6 +408,8 @@ public:
             out.probes["handler_entries"] += handler_entries;
         out.probes["audio_frames"] += (u64)std::count_if(A.box.events.begin(), A.box.events.end(),
                                                          [](const Event& e) { return e.kind == Event::Audio; });
+        out.probes["dma_ext_writes"] += (u64)std::count_if(A.box.events.begin(), A.box.events.end(),
+                                                           [](const Event& e) { return e.kind == Event::ExtWrite; });
         out.probes["host_handler_events"] += A.box.handler_calls[0] + A.box.handler_calls[1] + A.box.handler_calls[2] + A.box.handler_calls[3];
         out.nontrivial = comparisons > 0 && boundary_in_idle;
         Hasher sg;
